@@ -237,6 +237,14 @@ Definition power_operator_times (d : list space) (idx : nat) (pindex : list nat)
   let diag := dist_times 1 n 1 nbin pindex p in
   map (fun t => rmul (get x t) (get diag ((t / post) mod n))) (seq 0 (length x)).
 
+(* ---- histories: power_analyze keeps NO state between calls.  The model of a sequence of calls in
+        one process (same or different domains, binnings, phase flags; failing calls and retries) is
+        the pure model applied to each call's own arguments. ------------------------------------- *)
+Definition acall := (list space * (list spec * (bool * fval)))%type.
+Definition run_acall (c : acall) : option (list space * fval) :=
+  let '(d, (specs, (keep, f))) := c in power_analyze d specs keep f.
+Definition analyze_history (calls : list acall) : list (option (list space * fval)) := map run_acall calls.
+
 End Arith.
 
 Arguments Scalar {R} _.
